@@ -683,6 +683,9 @@ pub fn run_world(world: &World, env: &Arc<WorkerEnv>, wall_per_job: Duration) ->
     let n = world.threads.len();
     let env_inc = world.jobs.iter().find(|j| !j.includes.is_empty()).map(|j| env.include_dir(j)).unwrap_or_else(|| "/dev/shm".to_string());
     apply_environment(world.env, &env.dir, &env_inc);
+    if world.stdio != 0 {
+        simenv::break_stdio(world.stdio);
+    }
     log::set_max_level(match world.log_level {
         4 => log::LevelFilter::Debug,
         5 => log::LevelFilter::Trace,
@@ -740,6 +743,9 @@ pub fn run_world(world: &World, env: &Arc<WorkerEnv>, wall_per_job: Duration) ->
         // the stuck thread cannot be stopped: the caller must end this process
     }
     log::set_max_level(log::LevelFilter::Info);
+    if world.stdio != 0 {
+        simenv::restore_stdio();
+    }
     if world.env != 0 && wall_hang.is_none() {
         apply_environment(0, &env.dir, "");
     }
